@@ -324,6 +324,8 @@ pub struct Outcome {
     /// cache the observation is about (None: the op consumed or dropped it)
     pub post: Option<Snap>,
     pub pre: Option<Snap>,
+    /// `clone`: the *source* observed again after the call (completed or aborted by a panic)
+    pub src_post: Option<Snap>,
     pub alloc_refused: bool,
     /// ownership violations noticed during this op
     pub violations: Vec<String>,
@@ -464,6 +466,7 @@ impl World {
             log,
             post,
             pre,
+            src_post: None,
             alloc_refused,
             violations,
         }
@@ -498,9 +501,15 @@ impl World {
                             }
                         }
                         set_slot(&mut self.caches, *d, Some(clone));
-                        Some(self.finish(line, Ret::Cloned, false, log, Some(*d), pre, false, false))
+                        let mut o = self.finish(line, Ret::Cloned, false, log, Some(*d), pre, false, false);
+                        o.src_post = self.cache(*c).map(|x| observe(x, true));
+                        Some(o)
                     }
-                    Err(_) => Some(self.finish(line, Ret::Panicked, true, log, None, pre, false, false)),
+                    Err(_) => {
+                        let mut o = self.finish(line, Ret::Panicked, true, log, None, pre, false, false);
+                        o.src_post = self.cache(*c).map(|x| observe(x, true));
+                        Some(o)
+                    }
                 }
             }
             Op::Drop { c } => {
